@@ -607,6 +607,186 @@ fcn_harness!(c02_fcn_3_t128_same_bucket, 3, Some(128), [128, 128, 128]);
 // @verif property=C02 class=bounded bound="3 nodes; key == local id, node buckets [255,254,0]" fns=KademliaRoutingTable::find_closest_nodes uses=fcn_check,fcn_harness,id_at unwindset="find_closest_nodes~offset:257,literal_empty_table:257,DhtKey::distance:33,spec_first_diff:257,dist_lt:33,id_at:33,memcmp:33,spec_is_xor:33" tier=off panic=violation
 fcn_harness!(c02_fcn_3_key_is_self, 3, None, [255, 254, 0]);
 
+// ---------------------------------------------------------------------------
+// Failing-input SEARCH (native, cfg(test)): used by the driver only when the deductive route
+// cannot decide (an extraction anchor was lost, or a spliced invariant no longer proves) to look
+// for a concrete input on which the real function violates the property-level postcondition.
+// A hit is reported as a VIOLATION with the input; no hit proves nothing and is never counted as
+// evidence that the property holds.
+// ---------------------------------------------------------------------------
+#[cfg(test)]
+mod verif_search {
+    use super::*;
+
+    struct Rng(u64);
+    impl Rng {
+        fn next(&mut self) -> u64 {
+            self.0 ^= self.0 << 13;
+            self.0 ^= self.0 >> 7;
+            self.0 ^= self.0 << 17;
+            self.0
+        }
+        fn below(&mut self, n: u64) -> u64 {
+            self.next() % n
+        }
+        fn bytes(&mut self) -> [u8; 32] {
+            let mut b = [0u8; 32];
+            for c in b.chunks_mut(8) {
+                c.copy_from_slice(&self.next().to_le_bytes());
+            }
+            b
+        }
+        /// bucket position: boundary buckets are over-represented
+        fn pos(&mut self) -> usize {
+            const P: [usize; 12] = [0, 0, 1, 2, 3, 7, 8, 127, 128, 253, 254, 255];
+            if self.below(3) == 0 { self.below(256) as usize } else { P[self.below(12) as usize] }
+        }
+    }
+    fn id_in_bucket(r: &mut Rng, me: &[u8; 32], pos: usize, low_bits_only: bool) -> [u8; 32] {
+        let mut d = if low_bits_only { [0u8; 32] } else { r.bytes() };
+        if low_bits_only {
+            d[31] = r.below(256) as u8;
+        }
+        let byte = pos / 8;
+        let sh = (pos % 8) as u32;
+        let mut id = *me;
+        for i in 0..32 {
+            if i == byte {
+                id[i] = me[i] ^ ((d[i] & (0xffu8 >> sh)) | (0x80u8 >> sh));
+            } else if i > byte {
+                id[i] = me[i] ^ d[i];
+            }
+        }
+        id
+    }
+    fn hex(b: &[u8; 32]) -> String {
+        b.iter().map(|x| format!("{:02x}", x)).collect()
+    }
+    fn all_ids(t: &KademliaRoutingTable) -> Vec<[u8; 32]> {
+        let mut v = Vec::new();
+        for b in &t.buckets {
+            for n in &b.nodes {
+                v.push(*n.id.as_bytes());
+            }
+        }
+        v
+    }
+    fn table_ok(t: &KademliaRoutingTable, me: &[u8; 32]) -> Result<(), String> {
+        if t.buckets.len() != 256 {
+            return Err("C02/table/256_buckets".into());
+        }
+        let ids = all_ids(t);
+        for (i, a) in ids.iter().enumerate() {
+            if a == me {
+                return Err(format!("C02/table/never_lists_local_node id={}", hex(a)));
+            }
+            for b in &ids[i + 1..] {
+                if a == b {
+                    return Err(format!("C02/table/each_peer_at_most_once id={}", hex(a)));
+                }
+            }
+        }
+        for (bi, b) in t.buckets.iter().enumerate() {
+            for n in &b.nodes {
+                if spec_first_diff(me, n.id.as_bytes()) != bi {
+                    return Err(format!("C02/table/node_in_bucket_of_first_differing_bit id={} bucket={}", hex(n.id.as_bytes()), bi));
+                }
+            }
+        }
+        Ok(())
+    }
+    fn fcn_ok(t: &KademliaRoutingTable, key: &[u8; 32], n: usize) -> Result<(), String> {
+        let ids = all_ids(t);
+        let res = t.find_closest_nodes(&DhtKey::from_bytes(*key), n);
+        let tag = |o: &str| format!("{} key={} count={} table=[{}]", o, hex(key), n, ids.iter().map(hex).collect::<Vec<_>>().join(","));
+        if res.len() != n.min(ids.len()) {
+            return Err(tag("C02/fcn/len_is_min_n_size"));
+        }
+        for (i, r) in res.iter().enumerate() {
+            if !ids.contains(r.id.as_bytes()) {
+                return Err(tag("C02/fcn/result_is_table_entry"));
+            }
+            if i + 1 < res.len() && !dist_lt(r.id.as_bytes(), res[i + 1].id.as_bytes(), key) {
+                return Err(tag("C02/fcn/strictly_ascending_no_duplicates"));
+            }
+        }
+        for q in &ids {
+            if !res.iter().any(|r| r.id.as_bytes() == q) {
+                if res.len() != n {
+                    return Err(tag("C02/fcn/omits_only_when_full"));
+                }
+                if let Some(last) = res.last() {
+                    if dist_lt(q, last.id.as_bytes(), key) {
+                        return Err(tag("C02/fcn/no_omitted_peer_is_closer"));
+                    }
+                }
+            }
+        }
+        Ok(())
+    }
+
+    /// Random add/remove histories (repeated and self ids included) + closest-node queries.
+    #[test]
+    fn verif_search_c02() {
+        let seed: u64 = std::env::var("VERIF_SEED").ok().and_then(|s| s.parse().ok()).unwrap_or(0);
+        let mut r = Rng(0x9e37_79b9_7f4a_7c15 ^ seed.wrapping_mul(0x1000_0000_01b3) | 1);
+        let rounds: usize = std::env::var("VERIF_SEARCH_ROUNDS").ok().and_then(|s| s.parse().ok()).unwrap_or(400);
+        for round in 0..rounds {
+            let me = r.bytes();
+            let k = 1 + r.below(8) as usize;
+            let mut t = KademliaRoutingTable::new(NodeId::from_bytes(me), k);
+            let mut known: Vec<[u8; 32]> = Vec::new();
+            let ops = 1 + r.below(40);
+            let low = r.below(4) == 0;
+            for _ in 0..ops {
+                let choice = r.below(10);
+                if choice < 6 || known.is_empty() {
+                    let p = r.pos();
+                    let id = if r.below(25) == 0 { me } else if r.below(6) == 0 && !known.is_empty() { known[r.below(known.len() as u64) as usize] } else { id_in_bucket(&mut r, &me, p, low) };
+                    let before = all_ids(&t);
+                    let ok = t.add_node(mk_node(id)).is_ok();
+                    let after = all_ids(&t);
+                    let expect_present = id != me && (before.contains(&id) || ok);
+                    if after.contains(&id) != expect_present || after.iter().filter(|x| !before.contains(x)).any(|x| *x != id) || before.iter().any(|x| !after.contains(x)) {
+                        panic!("VERIF-SEARCH-HIT C02/table/add_view_exact round={} id={} me={}", round, hex(&id), hex(&me));
+                    }
+                    known.push(id);
+                } else {
+                    let id = known[r.below(known.len() as u64) as usize];
+                    let before = all_ids(&t);
+                    t.remove_node(&NodeId::from_bytes(id));
+                    let after = all_ids(&t);
+                    if after.contains(&id) || before.iter().any(|x| *x != id && !after.contains(x)) || after.iter().any(|x| !before.contains(x)) {
+                        panic!("VERIF-SEARCH-HIT C02/table/remove_view_exact round={} id={} me={}", round, hex(&id), hex(&me));
+                    }
+                }
+                if let Err(e) = table_ok(&t, &me) {
+                    panic!("VERIF-SEARCH-HIT {} round={} me={}", e, round, hex(&me));
+                }
+            }
+            // queries: random keys, the local id, keys next to listed ids, boundary buckets
+            let ids = all_ids(&t);
+            for q in 0..12 {
+                let key = match q {
+                    0 => me,
+                    1 | 2 if !ids.is_empty() => {
+                        let mut kx = ids[r.below(ids.len() as u64) as usize];
+                        kx[31] ^= 1 + r.below(255) as u8;
+                        kx
+                    }
+                    3 | 4 => { let p = r.pos(); id_in_bucket(&mut r, &me, p, false) },
+                    _ => r.bytes(),
+                };
+                for n in [0usize, 1, 2, 3, 8, 20, 64, ids.len(), ids.len() + 1] {
+                    if let Err(e) = fcn_ok(&t, &key, n) {
+                        panic!("VERIF-SEARCH-HIT {} round={} me={}", e, round, hex(&me));
+                    }
+                }
+            }
+        }
+    }
+}
+
 // Native replay slot: `cargo kani playback` compiles the crate with cfg(test)+cfg(kani);
 // the driver writes the generated concrete-playback unit test here before running it.
 #[cfg(test)]
